@@ -123,6 +123,10 @@ Section Quat.
     | _ => (m21 - m12, m02 - m20, m10 - m01, k1 + m00 + m11 + m22)
     end.
 
+  (* _quaternion_to_euler: the quantities a, b, c, d for proper Euler (first = last axis) and Tait-Bryan sequences, from the scalar part w,
+     the components cq, cr, cs at the three axes and the permutation sign *)
+  Definition abcd_sym (w cq cr cs sg : R) : R * R * R * R := (w, cq, cr, cs * sg).
+  Definition abcd_asym (w cq cr cs sg : R) : R * R * R * R := (w - cr, cq + cs * sg, cr + w, cs * sg - cq).
   (* _make_elementary_quat with s = sin(angle/2), c = cos(angle/2): component `axis` of the stored quaternion = s, w = c *)
   Definition elementary_sc (axis : nat) (s c : R) : quat :=
     match axis with 0%nat => (s, k0, k0, c) | 1%nat => (k0, s, k0, c) | _ => (k0, k0, s, c) end.
@@ -163,6 +167,29 @@ Section ListEdits.
     end.
 End ListEdits.
 Arguments set_nth {E}. Arguments gather {E}. Arguments scatter {E}.
+
+(* ---- index expressions on a 1-D batch, resolved in the model (not by numpy): integer (negative allowed) and slice with positive step,
+   with Python's slice.indices semantics (None defaults, negative values count from the end, clamping to [0, n]) ---- *)
+Inductive index1 : Type := IInt (i : Z) | ISlice (start stop step : option Z).
+Definition clamp_index (n d : Z) (o : option Z) : Z :=
+  match o with None => d | Some v => Z.max 0 (Z.min n (if (v <? 0)%Z then (v + n)%Z else v)) end.
+Definition slice_count (start stop step : Z) : Z := if (stop <=? start)%Z then 0%Z else ((stop - start + step - 1) / step)%Z.
+(* flat positions selected by the index in a batch of n rotations; None = the implementation raises (IndexError / ValueError) *)
+Definition resolve_index (n : nat) (ix : index1) : option (list nat) :=
+  let nz := Z.of_nat n in
+  match ix with
+  | IInt i => if ((- nz <=? i) && (i <? nz))%Z then Some [Z.to_nat (if (i <? 0)%Z then (i + nz)%Z else i)] else None
+  | ISlice a b st =>
+      let step := match st with None => 1%Z | Some s => s end in
+      if (step <=? 0)%Z then None else
+      let start := clamp_index nz 0%Z a in let stop := clamp_index nz nz b in
+      Some (map (fun k => Z.to_nat (start + Z.of_nat k * step)%Z) (seq 0 (Z.to_nat (slice_count start stop step))))
+  end.
+Definition getitem_ix {E : Type} (d : E) (ix : index1) (l : list E) : option (list E) :=
+  option_map (fun pos => gather d pos l) (resolve_index (length l) ix).
+(* r[ix] = value: `vals` is the value already broadcast to the selection *)
+Definition setitem_ix {E : Type} (ix : index1) (vals : list E) (l : list E) : option (list E) :=
+  option_map (fun pos => scatter pos vals l) (resolve_index (length l) ix).
 
 Section Batch.
   Variable R : StarRing.
@@ -318,3 +345,8 @@ Definition EdReshape : QEdit := EReshape.
 Definition EdReflect : QEdit := EReflect.
 Definition EdInvertAxes : QEdit := EInvertAxes.
 Definition EdSetComp (c : nat) (vals : list Qc) : QEdit := @ESetComp QcRing _ c vals.
+
+(* observation of getitem / setitem with a model-resolved index on a 1-D batch (None = the index is rejected) *)
+Definition qc_getitem (ix : index1) (st : list (rot QcRing)) := option_map obs_state (getitem_ix (rid QcRing) ix st).
+Definition qc_setitem (ix : index1) (v : rot QcRing) (st : list (rot QcRing)) :=
+  option_map obs_state (match resolve_index (length st) ix with Some pos => setitem_ix ix (repeat v (length pos)) st | None => None end).
